@@ -42,28 +42,7 @@ func recvType(f *types.Func) types.Type {
 
 // condCalls lists the sync.Cond fields on which node n executes one of methods.
 func condCalls(info *types.Info, n ast.Node, methods ...string) []string {
-	var out []string
-	for _, call := range cfgq.ExecCalls(n) {
-		sel, ok := ast.Unparen(call.Fun).(*ast.SelectorExpr)
-		if !ok {
-			continue
-		}
-		okm := false
-		for _, m := range methods {
-			okm = okm || sel.Sel.Name == m
-		}
-		if !okm {
-			continue
-		}
-		f := core.CalleeFunc(info, call)
-		if f == nil || core.NamedTypePath(recvType(f)) != "sync.Cond" {
-			continue
-		}
-		if fs, ok := ast.Unparen(sel.X).(*ast.SelectorExpr); ok {
-			out = append(out, fs.Sel.Name)
-		}
-	}
-	return out
+	return ring.CondOps(theCtx, info, n, methods...)
 }
 
 func has(l []string, s string) bool {
@@ -92,7 +71,10 @@ func noProgressEdge(info *types.Info, b *cfg.Block, succ int, binds pat.Binds) b
 	return gotN && gotErr
 }
 
+var theCtx *core.Ctx
+
 func Run(c *core.Ctx) {
+	theCtx = c
 	pk := c.Pkg(pkg)
 	if pk == nil {
 		c.Undecidedf("anchor", pkg, token.NoPos, "package not loaded")
